@@ -41,7 +41,7 @@ import (
 
 func main() {
 	core.Main("C13", &core.Driver{
-		Imports:   "From Verif Require Import Lib.Base Lib.Bytes Model.C13Check.",
+		Imports:   "From Verif Require Import Lib.Base Lib.Bytes Model.AgentStd Model.C13Check.",
 		CheckFn:   "C13Check.check",
 		ClassFn:   "C13Check.classify",
 		CaseType:  "C13Check.case",
@@ -752,6 +752,7 @@ func (x *runner) opList() {
 	}
 	sc := script{keys: x.scriptedKeys(), err: x.g.maybeErr(false)}
 	x.fake.arm(sc)
+	s.tee.reset()
 	var got []*agent.Key
 	var err error
 	if do(func() { got, err = s.cli.List() }) {
@@ -762,6 +763,16 @@ func (x *runner) opList() {
 	if _, ok := oneCall(x.fake.seen(), "List"); !ok {
 		x.bad("List: the served agent saw calls ["+methods(x.fake.seen())+"]", in)
 		return
+	}
+	{
+		scripted, client := "PFailure", ""
+		if sc.err == nil {
+			scripted = gIdents(sc.keys)
+		}
+		if err == nil {
+			client = gIdents(got)
+		}
+		x.std("std-list", "QList", "QList", scripted, client, in)
 	}
 	if sc.err != nil {
 		if err == nil {
@@ -819,6 +830,7 @@ func (x *runner) opSign(withFlags bool) {
 		sc.sig = nil
 	}
 	x.fake.arm(sc)
+	s.tee.reset()
 	var got *ssh.Signature
 	var err error
 	if do(func() {
@@ -841,6 +853,16 @@ func (x *runner) opSign(withFlags bool) {
 	if !ok {
 		x.bad("Sign: the served agent saw calls ["+methods(cs)+"]", in)
 		return
+	}
+	{
+		scripted, client := "PFailure", ""
+		if sc.err == nil {
+			scripted = gSig(sc.sig)
+		}
+		if err == nil && got != nil {
+			client = gSig(got)
+		}
+		x.std("std-sign", gSign(key.Marshal(), data, flags), gSign(cl.key, cl.data, cl.flags), scripted, client, in)
 	}
 	if !bytes.Equal(cl.key, key.Marshal()) || !bytes.Equal(cl.data, data) || cl.flags != flags {
 		x.bad(fmt.Sprintf("Sign: the served agent received different arguments (key equal=%v, data equal=%v, flags %d vs %d)",
@@ -879,22 +901,61 @@ func (x *runner) opAdd() {
 	ak.ConfirmBeforeUse = g.r.Intn(3) == 0
 	sc := script{err: g.maybeErr(false)}
 	x.fake.arm(sc)
+	s.tee.reset()
 	var err error
 	if do(func() { err = s.cli.Add(ak) }) {
 		x.bad("client Add hung", nil)
 		return
 	}
 	in := map[string]interface{}{"op": "Add", "key": kp.kind, "cert": ak.Certificate != nil, "lifetime": ak.LifetimeSecs, "confirm": ak.ConfirmBeforeUse,
-		"comment": ak.Comment, "scripted_error": errText(sc.err)}
+		"comment": ak.Comment, "constraint_extensions": len(ak.ConstraintExtensions), "scripted_error": errText(sc.err)}
 	cl, ok := oneCall(x.fake.seen(), "Add")
 	if !ok {
 		x.bad("Add: the served agent saw calls ["+methods(x.fake.seen())+"]", in)
 		return
 	}
 	got := cl.added
+	if q, ok := gAdded(ak); ok {
+		// an RSA key is the same key with its two primes in either order (x/crypto's server builds the
+		// object of a certified RSA key with the primes swapped)
+		gotN := got
+		if a, ok1 := ak.PrivateKey.(*rsa.PrivateKey); ok1 {
+			if b, ok2 := got.PrivateKey.(*rsa.PrivateKey); ok2 && len(a.Primes) == 2 && len(b.Primes) == 2 &&
+				a.Primes[0].Cmp(b.Primes[1]) == 0 && a.Primes[1].Cmp(b.Primes[0]) == 0 && a.Primes[0].Cmp(a.Primes[1]) != 0 {
+				c := *b
+				c.Primes = []*big.Int{b.Primes[1], b.Primes[0]}
+				gotN.PrivateKey = &c
+			}
+		}
+		seen, _ := gAdded(gotN)
+		if seen != q {
+			_, f1, _ := keyFields(ak.PrivateKey, ak.Certificate)
+			_, f2, _ := keyFields(gotN.PrivateKey, gotN.Certificate)
+			var diff []int
+			for i := range f1 {
+				if i >= len(f2) || !bytes.Equal(f1[i], f2[i]) {
+					diff = append(diff, i)
+				}
+			}
+			in["request_fields_that_differ"] = fmt.Sprint(diff, len(f1), len(f2))
+		}
+		scripted, client := "PFailure", ""
+		if sc.err == nil {
+			scripted = "PSuccess"
+		}
+		if err == nil {
+			client = "PSuccess"
+		}
+		x.std("std-add", q, seen, scripted, client, in)
+	}
+	extSame := len(got.ConstraintExtensions) == len(ak.ConstraintExtensions)
+	for i := 0; extSame && i < len(ak.ConstraintExtensions); i++ {
+		extSame = got.ConstraintExtensions[i].ExtensionName == ak.ConstraintExtensions[i].ExtensionName &&
+			bytes.Equal(got.ConstraintExtensions[i].ExtensionDetails, ak.ConstraintExtensions[i].ExtensionDetails)
+	}
 	certSame := (got.Certificate == nil) == (ak.Certificate == nil) && (got.Certificate == nil || bytes.Equal(got.Certificate.Marshal(), ak.Certificate.Marshal()))
 	if !samePriv(ak.PrivateKey, got.PrivateKey) || !certSame || got.Comment != ak.Comment || got.LifetimeSecs != ak.LifetimeSecs ||
-		got.ConfirmBeforeUse != ak.ConfirmBeforeUse || len(got.ConstraintExtensions) != 0 {
+		got.ConfirmBeforeUse != ak.ConfirmBeforeUse || !extSame {
 		x.bad(fmt.Sprintf("Add: the served agent received a different key or constraints (private equal=%v cert equal=%v comment equal=%v lifetime %d vs %d confirm %v vs %v)",
 			samePriv(ak.PrivateKey, got.PrivateKey), certSame, got.Comment == ak.Comment, got.LifetimeSecs, ak.LifetimeSecs, got.ConfirmBeforeUse, ak.ConfirmBeforeUse), in)
 		return
@@ -923,6 +984,7 @@ func (x *runner) opSimple(kind int) {
 	if g.r.Intn(2) == 0 {
 		pass = []byte(core.GenText(g.r))
 	}
+	s.tee.reset()
 	hung := do(func() {
 		switch kind {
 		case 0:
@@ -948,6 +1010,27 @@ func (x *runner) opSimple(kind int) {
 	if !ok {
 		x.bad(name+": the served agent saw calls ["+methods(x.fake.seen())+"]", in)
 		return
+	}
+	{
+		var q, seen string
+		switch kind {
+		case 0:
+			q, seen = core.GApp("QRemove", gHex(key.Marshal())), core.GApp("QRemove", gHex(cl.key))
+		case 1:
+			q, seen = "QRemoveAll", "QRemoveAll"
+		case 2:
+			q, seen = core.GApp("QLock", gHex(pass)), core.GApp("QLock", gHex(cl.pass))
+		default:
+			q, seen = core.GApp("QUnlock", gHex(pass)), core.GApp("QUnlock", gHex(cl.pass))
+		}
+		scripted, client := "PFailure", ""
+		if sc.err == nil {
+			scripted = "PSuccess"
+		}
+		if err == nil {
+			client = "PSuccess"
+		}
+		x.std("std-"+strings.ToLower(name), q, seen, scripted, client, in)
 	}
 	switch kind {
 	case 0:
@@ -1409,6 +1492,33 @@ func (x *runner) probeKnown() {
 		if !do(func() { _, e = s.cli.ListSlots() }) && e == nil {
 			c.KnownFindingProbe("K2-empty-error", "a slot-listing failure with an empty error text reaches the client as success",
 				map[string]interface{}{"ListSlots_error": "", "client_returned": nil})
+		}
+	}
+	// K6: constraint extensions of an added key (x/crypto's client does not write them)
+	{
+		var e error
+		s := x.session()
+		kp := x.g.m.keys[0]
+		ak := agent.AddedKey{PrivateKey: kp.priv, Comment: "k6", LifetimeSecs: 60, ConfirmBeforeUse: true,
+			ConstraintExtensions: []agent.ConstraintExtension{{ExtensionName: "x@verif", ExtensionDetails: []byte{1, 2, 3}}}}
+		x.fake.arm(script{})
+		if !do(func() { e = s.cli.Add(ak) }) && e == nil {
+			if cl, ok := oneCall(x.fake.seen(), "Add"); ok {
+				got := cl.added
+				rest := samePriv(ak.PrivateKey, got.PrivateKey) && got.Certificate == nil && got.Comment == ak.Comment &&
+					got.LifetimeSecs == ak.LifetimeSecs && got.ConfirmBeforeUse == ak.ConfirmBeforeUse
+				in := map[string]interface{}{"op": "Add", "constraint_extensions_given": 1, "constraint_extensions_received": len(got.ConstraintExtensions)}
+				if rest && len(got.ConstraintExtensions) == 0 {
+					c.KnownFindingProbe("K6-add-constraint-extensions", "constraint extensions of an added key do not reach the served agent", in)
+				} else if !rest || len(got.ConstraintExtensions) != 1 || got.ConstraintExtensions[0].ExtensionName != "x@verif" ||
+					!bytes.Equal(got.ConstraintExtensions[0].ExtensionDetails, []byte{1, 2, 3}) {
+					c.Native("Add with a constraint extension: the served agent received a different key or constraints", in)
+				}
+			} else {
+				c.Native("Add with a constraint extension: the served agent saw calls ["+methods(x.fake.seen())+"]", nil)
+			}
+		} else {
+			c.Native(fmt.Sprintf("Add with a constraint extension failed or hung (err=%v)", e), nil)
 		}
 	}
 	// K3: a slot name containing ',' (and the single empty name)
